@@ -28,7 +28,7 @@ Inductive aevent :=
 
 Record acc := mkAcc {
   pendq : nat;       (* connections completed by the kernel, waiting in the listen queue *)
-  idle_ok : bool;    (* idleFd_ refers to an open descriptor *)
+  idle_ok : bool;    (* idleFd_ refers to an open descriptor on /dev/null *)
   handed : nat;      (* connections handed to newConnectionCallback_ *)
   valved : nat;      (* connections closed by the escape hatch *)
   open_fds : nat;    (* descriptors this component holds open (census), the listener included *)
@@ -40,6 +40,33 @@ Definition acc_init : acc := mkAcc 0 true 0 0 2 false.   (* listener + idle desc
 (* environment: a client completes a handshake *)
 Definition client_connects (a : acc) : acc :=
   mkAcc (S (pendq a)) (idle_ok a) (handed a) (valved a) (open_fds a) (dead a).
+
+(* ---- the idleFd_ protocol of the EMFILE branch, statement by statement (acceptor_valve_protocol is
+   regenerated from Acceptor::handleRead) ------------------------------------------------------------ *)
+(* the spare descriptor: closed / refers to /dev/null / refers to a connection taken from the listen queue *)
+Inductive idle := IdleClosed | IdleNull | IdleConn.
+
+Record valve := mkValve {
+  v_idle : idle;
+  v_pend : nat;        (* listen queue *)
+  v_closed : nat;      (* pending connections accepted on the spare descriptor and closed *)
+  v_leaked : nat       (* open descriptors whose number was overwritten without a close *)
+}.
+
+(* 1 = ::close(idleFd_), 2 = idleFd_ = ::accept(listener), 3 = idleFd_ = ::open("/dev/null"), other = no effect on the protocol *)
+Definition valve_step (v : valve) (code : Z) : valve :=
+  let lost := match v_idle v with IdleClosed => 0%nat | _ => 1%nat end in
+  if code =? 1 then
+    mkValve IdleClosed (v_pend v) (match v_idle v with IdleConn => S (v_closed v) | _ => v_closed v end) (v_leaked v)
+  else if code =? 2 then
+    match v_pend v with
+    | O => mkValve IdleClosed O (v_closed v) (v_leaked v + lost)            (* accept fails: idleFd_ = -1 *)
+    | S n => mkValve IdleConn n (v_closed v) (v_leaked v + lost)
+    end
+  else if code =? 3 then mkValve IdleNull (v_pend v) (v_closed v) (v_leaked v + lost)
+  else v.
+
+Definition run_valve (v : valve) (codes : list Z) : valve := fold_left valve_step codes v.
 
 (* Acceptor::handleRead with the kernel's answer [r].  Kernel contract (DESIGN 3.4): accept
    succeeds only if a connection is pending; with none pending the answer is EAGAIN. *)
@@ -55,11 +82,18 @@ Definition handleRead (a : acc) (r : accept_res) : acc * list aevent :=
       | Fatal => (mkAcc (pendq a) (idle_ok a) (handed a) (valved a) (open_fds a) true, [Abort])
       | Expected =>
           if (e =? errno_EMFILE) && acceptor_has_emfile_valve then
-            (* close(idleFd_); idleFd_ = accept(...); close(idleFd_); idleFd_ = open("/dev/null") *)
-            match pendq a with
-            | O => (a, [])      (* nothing pending: accept fails, the spare descriptor is reopened *)
-            | S n => (mkAcc n true (handed a) (S (valved a)) (open_fds a) false, [ValveClosed])
-            end
+            (* the branch AS IT STANDS IN THE SOURCE, run statement by statement (2026-10-02, REVIEW_C
+               item 5: the spare descriptor's validity and the descriptor census are now computed, no
+               longer copied): descriptors held afterwards = those held before, minus the spare one if
+               it was open, plus the spare one if it is open now, plus every descriptor whose number
+               was overwritten while still open *)
+            let v := run_valve (mkValve (if idle_ok a then IdleNull else IdleClosed) (pendq a) 0 0)
+                               acceptor_valve_protocol in
+            (mkAcc (v_pend v) (match v_idle v with IdleNull => true | _ => false end)
+                   (handed a) (valved a + v_closed v)
+                   (open_fds a - (if idle_ok a then 1 else 0)
+                    + (match v_idle v with IdleClosed => 0 | _ => 1 end) + v_leaked v) false,
+             repeat ValveClosed (v_closed v))
           else (a, [])
       end
   end.
@@ -85,16 +119,176 @@ Fixpoint starve (a : acc) (n : nat) : acc :=
   | S n' => starve (fst (handleRead a (AErr errno_EMFILE))) n'
   end.
 
-(* ---- the poll call: EPollPoller::poll / PollPoller::poll ------------------------------- *)
-(* result of one epoll_wait/poll: n >= 0 ready entries, or -1 with an errno *)
-Inductive poll_res := PReady (n : nat) | PErr (e : Z).
+(* ---- the poll call: EPollPoller::poll / PollPoller::poll, the WHOLE function ------------------ *)
+(* (rewritten 2026-10-02, REVIEW_C item 2: nothing about the outcome of a failed poll is a literal
+   of the model any more.)  The function is executed from its regenerated pieces: the three guards
+   and, per branch, the statement codes of lib/gen_C11.py (1 = fillActiveChannels(numEvents,
+   activeChannels), 2 = trace/debug/info log line, 3 = bookkeeping, 4 = warn/error-level log line,
+   anything else = the statement aborts the process or was not understood by the translator). *)
 
-(* how many channels the loop dispatches in this iteration, and whether the loop goes on *)
-Definition poll_iteration (r : poll_res) : nat * bool :=
-  match r with
-  | PReady n => (n, true)
-  | PErr _ => (0%nat, true)     (* EINTR silent, others logged; the loop simply iterates again *)
+(* the kernel's answer to ::epoll_wait / ::poll: return value, errno, and the channels of the
+   reported entries (meaningful for n > 0; what fillActiveChannels makes of them is C09's) *)
+Record kans := mkKans { k_n : Z; k_errno : Z; k_ready : list nat }.
+
+(* what Poller::poll leaves behind: the caller's activeChannels list, whether an error-level line
+   was logged, whether the process aborted inside the call *)
+Record pollout := mkPollout { po_active : list nat; po_errlog : bool; po_aborted : bool }.
+
+Definition pstmt (ready : list nat) (o : pollout) (code : Z) : pollout :=
+  if po_aborted o then o
+  else if code =? 1 then mkPollout (po_active o ++ ready) (po_errlog o) false
+  else if (code =? 2) || (code =? 3) then o
+  else if code =? 4 then mkPollout (po_active o) true false
+  else mkPollout (po_active o) (po_errlog o) true.
+
+Record poller_src := mkPS {
+  ps_some : Z -> bool; ps_none : Z -> bool; ps_log : Z -> bool;
+  ps_pro : list Z; ps_bsome : list Z; ps_bnone : list Z; ps_berr : list (bool * Z) }.
+
+Definition epoll_src : poller_src :=
+  mkPS epoll_poll_some_test epoll_poll_none_test epoll_poll_log_test
+       epoll_poll_prologue epoll_poll_some_branch epoll_poll_none_branch epoll_poll_err_branch.
+Definition ppoll_src : poller_src :=
+  mkPS ppoll_poll_some_test ppoll_poll_none_test ppoll_poll_log_test
+       ppoll_poll_prologue ppoll_poll_some_branch ppoll_poll_none_branch ppoll_poll_err_branch.
+
+(*   prologue; numEvents = ::poll(..); savedErrno = errno;
+     if (some numEvents) {A} else if (none numEvents) {B} else {C};  return now;
+   a statement of C flagged [true] stands inside `if (log savedErrno)` *)
+Definition poll_call (src : poller_src) (active0 : list nat) (k : kans) : pollout :=
+  let run := fold_left (pstmt (k_ready k)) in
+  let o0 := run (ps_pro src) (mkPollout active0 false false) in
+  if ps_some src (k_n k) then run (ps_bsome src) o0
+  else if ps_none src (k_n k) then run (ps_bnone src) o0
+  else run (map snd (filter (fun gc => negb (fst gc) || ps_log src (k_errno k)) (ps_berr src))) o0.
+
+(* ---- EventLoop::loop and doPendingFunctors (EventLoop.cc:103-133, 254-269) -------------------- *)
+(* A small loop model of C11's own (C09_Model.loop_iter_full has no poll failure and no quit_).
+   [U] is everything the callbacks act on.  A channel's handleEvent and a queued functor are given
+   by what they do to U, which functors they queue (queueInLoop / runInLoop on the loop thread:
+   appended to pendingFunctors_) and whether they call quit(). *)
+Definition behaviour (U : Type) := nat -> U -> U * list nat * bool.
+
+Record lstate (U : Type) := mkL {
+  l_user : U;
+  l_pending : list nat;     (* pendingFunctors_ *)
+  l_quit : bool;            (* quit_ *)
+  l_iter : nat;             (* iteration_ *)
+  l_active : list nat       (* activeChannels_ (a member: survives from one iteration to the next) *)
+}.
+Arguments mkL {U}. Arguments l_user {U}. Arguments l_pending {U}. Arguments l_quit {U}.
+Arguments l_iter {U}. Arguments l_active {U}.
+
+(* what one iteration did *)
+Record itrace := mkIT {
+  t_disp : list nat;        (* channels whose handleEvent ran, in order *)
+  t_ran : list nat;         (* functors run by doPendingFunctors, in order *)
+  t_queued : list nat;      (* functors that entered pendingFunctors_ during the iteration, in order *)
+  t_errlog : bool           (* Poller::poll logged an error-level line *)
+}.
+
+Section Loop.
+Variable U : Type.
+Variables hnd fnb : behaviour U.
+
+(* run a list of handlers / functors in order: (user state, functors they queued, quit requested) *)
+Fixpoint run_list (b : behaviour U) (ids : list nat) (u : U) : U * list nat * bool :=
+  match ids with
+  | [] => (u, [], false)
+  | i :: t => let '(u1, q1, x1) := b i u in
+              let '(u2, q2, x2) := run_list b t u1 in (u2, q1 ++ q2, x1 || x2)
   end.
+
+(* state while the body of the while loop runs *)
+Record bstate := mkB { b_l : lstate U; b_t : itrace; b_ab : bool; b_local : list nat (* doPendingFunctors' local vector *) }.
+
+(* doPendingFunctors, from the regenerated statement codes: 1 = swap under the lock, 2 = run every
+   element of the local vector, 0 = bookkeeping, other = abort / not understood *)
+Definition dstmt (s : bstate) (code : Z) : bstate :=
+  if b_ab s then s else
+  let l := b_l s in let t := b_t s in
+  if code =? 0 then s
+  else if code =? 1 then
+    mkB (mkL (l_user l) (b_local s) (l_quit l) (l_iter l) (l_active l)) t false (l_pending l)
+  else if code =? 2 then
+    let '(u, q, x) := run_list fnb (b_local s) (l_user l) in
+    mkB (mkL u (l_pending l ++ q) (l_quit l || x) (l_iter l) (l_active l))
+        (mkIT (t_disp t) (t_ran t ++ b_local s) (t_queued t ++ q) (t_errlog t)) false (b_local s)
+  else mkB l t true (b_local s).
+
+(* the body of `while (!quit_)`, from the regenerated statement codes: 1 = activeChannels_.clear(),
+   2 = poller_->poll(kPollTimeMs, &activeChannels_), 3 = ++iteration_, 4 = handleEvent on every
+   element of activeChannels_, 5 = doPendingFunctors(), 0 = bookkeeping, other = abort / not understood *)
+Definition lstmt (src : poller_src) (dbody : list Z) (k : kans) (s : bstate) (code : Z) : bstate :=
+  if b_ab s then s else
+  let l := b_l s in let t := b_t s in
+  if code =? 0 then s
+  else if code =? 1 then mkB (mkL (l_user l) (l_pending l) (l_quit l) (l_iter l) []) t false (b_local s)
+  else if code =? 2 then
+    let o := poll_call src (l_active l) k in
+    mkB (mkL (l_user l) (l_pending l) (l_quit l) (l_iter l) (po_active o))
+        (mkIT (t_disp t) (t_ran t) (t_queued t) (t_errlog t || po_errlog o)) (po_aborted o) (b_local s)
+  else if code =? 3 then mkB (mkL (l_user l) (l_pending l) (l_quit l) (S (l_iter l)) (l_active l)) t false (b_local s)
+  else if code =? 4 then
+    let '(u, q, x) := run_list hnd (l_active l) (l_user l) in
+    mkB (mkL u (l_pending l ++ q) (l_quit l || x) (l_iter l) (l_active l))
+        (mkIT (t_disp t ++ l_active l) (t_ran t) (t_queued t ++ q) (t_errlog t)) false (b_local s)
+  else if code =? 5 then
+    let s' := fold_left dstmt dbody (mkB l t false []) in mkB (b_l s') (b_t s') (b_ab s') (b_local s)
+  else mkB l t true (b_local s).
+
+(* one pass through the body as it stands in the source *)
+Definition iter_src (src : poller_src) (lbody dbody : list Z) (l : lstate U) (k : kans) : lstate U * itrace * bool :=
+  let s := fold_left (lstmt src dbody k) lbody (mkB l (mkIT [] [] [] false) false []) in
+  (b_l s, b_t s, b_ab s).
+
+(* the same, written out: clear; poll; ++iteration_; dispatch every active channel; run what is
+   pending now (what the handlers queued included); what the functors queue stays pending *)
+Definition iter (src : poller_src) (l : lstate U) (k : kans) : lstate U * itrace * bool :=
+  let o := poll_call src [] k in
+  if po_aborted o then
+    (mkL (l_user l) (l_pending l) (l_quit l) (l_iter l) (po_active o), mkIT [] [] [] (po_errlog o), true)
+  else
+    let '(u1, q1, x1) := run_list hnd (po_active o) (l_user l) in
+    let run := l_pending l ++ q1 in
+    let '(u2, q2, x2) := run_list fnb run u1 in
+    (mkL u2 q2 (l_quit l || x1 || x2) (S (l_iter l)) (po_active o),
+     mkIT (po_active o) run (q1 ++ q2) (po_errlog o), false).
+
+(* what other threads do while the loop thread is blocked in (or on its way to) the poll call *)
+Inductive ext := XQueue (f : nat) | XQuit.
+Definition apply_ext (l : lstate U) (x : ext) : lstate U :=
+  match x with
+  | XQueue f => mkL (l_user l) (l_pending l ++ [f]) (l_quit l) (l_iter l) (l_active l)
+  | XQuit => mkL (l_user l) (l_pending l) true (l_iter l) (l_active l)
+  end.
+Definition ext_queued (xs : list ext) : list nat :=
+  flat_map (fun x => match x with XQueue f => [f] | XQuit => [] end) xs.
+
+(* `while (!quit_) { body }`: one environment input per pass - what other threads did meanwhile and
+   how the poll call returned.  Result: final state, one trace per pass made, aborted *)
+Fixpoint loop_run (src : poller_src) (l : lstate U) (ins : list (list ext * kans)) : lstate U * list itrace * bool :=
+  match ins with
+  | [] => (l, [], false)
+  | (xs, k) :: rest =>
+      if l_quit l then (l, [], false)
+      else
+        let l1 := fold_left apply_ext xs l in
+        let '(l2, t, ab) := iter src l1 k in
+        let t' := mkIT (t_disp t) (t_ran t) (ext_queued xs ++ t_queued t) (t_errlog t) in
+        if ab then (l2, [t'], true)
+        else let '(l3, ts, ab') := loop_run src l2 rest in (l3, t' :: ts, ab')
+  end.
+End Loop.
+Arguments run_list {U}. Arguments iter {U}. Arguments iter_src {U}. Arguments loop_run {U}.
+Arguments apply_ext {U}. Arguments mkB {U}. Arguments b_l {U}. Arguments b_t {U}. Arguments b_ab {U}.
+
+(* an interrupted poll call / a poll call that timed out *)
+Definition k_intr (e : Z) (ready : list nat) : kans := mkKans (-1) e ready.
+Definition k_timeout : kans := mkKans 0 0 [].
+(* the fault-free twin of an environment input: a failed poll call becomes one that timed out *)
+Definition calm_in (i : list ext * kans) : list ext * kans :=
+  (fst i, if k_n (snd i) <? 0 then k_timeout else snd i).
 
 (* ---- one connect attempt: Connector::connect (Connector.cc:78-117), added 2026-10-02 ---------- *)
 (* what happens to the socket the attempt created, for the errno [e] that ::connect left (0 =
@@ -123,28 +317,3 @@ Definition connect_attempt (e : Z) : attempt :=
             ((0 <? cg)%nat && connector_connecting_watches)
             rt.
 
-(* ---- the idleFd_ protocol of the EMFILE branch, statement by statement ------------------------- *)
-(* the spare descriptor: closed / refers to /dev/null / refers to a connection taken from the listen queue *)
-Inductive idle := IdleClosed | IdleNull | IdleConn.
-
-Record valve := mkValve {
-  v_idle : idle;
-  v_pend : nat;        (* listen queue *)
-  v_closed : nat;      (* pending connections accepted on the spare descriptor and closed *)
-  v_leaked : nat       (* open descriptors whose number was overwritten without a close *)
-}.
-
-(* 1 = ::close(idleFd_), 2 = idleFd_ = ::accept(listener), 3 = idleFd_ = ::open("/dev/null"), other = no effect on the protocol *)
-Definition valve_step (v : valve) (code : Z) : valve :=
-  let lost := match v_idle v with IdleClosed => 0%nat | _ => 1%nat end in
-  if code =? 1 then
-    mkValve IdleClosed (v_pend v) (match v_idle v with IdleConn => S (v_closed v) | _ => v_closed v end) (v_leaked v)
-  else if code =? 2 then
-    match v_pend v with
-    | O => mkValve IdleClosed O (v_closed v) (v_leaked v + lost)            (* accept fails: idleFd_ = -1 *)
-    | S n => mkValve IdleConn n (v_closed v) (v_leaked v + lost)
-    end
-  else if code =? 3 then mkValve IdleNull (v_pend v) (v_closed v) (v_leaked v + lost)
-  else v.
-
-Definition run_valve (v : valve) (codes : list Z) : valve := fold_left valve_step codes v.
